@@ -220,6 +220,8 @@ func Chains(j *job.Job, s *job.Sink) {
 		// second carrying the last restriction: the members may compare equal and be
 		// merged, but a bad restriction on the second one is an error all the same.
 		unionLast, unionParent, unionExtra := false, "", ""
+		devLast := false
+		devText := ""
 		var b strings.Builder
 		// One chain in five of depth two and more is spread over modules: the first level lives
 		// in module xa, which m imports under the prefix p, and a twin module imports another
@@ -317,6 +319,11 @@ func Chains(j *job.Job, s *job.Sink) {
 				// the last restriction sits on the second of two union members of the same
 				// parent type (see below) instead of in a typedef of its own
 				unionLast, unionParent, unionExtra = true, prevName, extra
+			} else if lvl == depth-1 && !twin && r.Intn(6) == 0 {
+				// the last restriction arrives through a deviation: the leaf has the parent type,
+				// a second module replaces it by the parent type with the restriction. A bad
+				// restriction is an error there like anywhere else.
+				devLast, unionParent, unionExtra = true, prevName, extra
 			} else if twin && lvl == 0 {
 				fmt.Fprintf(&xa, "  typedef %s { type %s {%s %s %q; } }\n", name, prevName, extra, kw, str)
 			} else {
@@ -330,7 +337,18 @@ func Chains(j *job.Job, s *job.Sink) {
 		// One chain in six hangs the leaf's type into a union behind a plain member of the
 		// same name: the two members may compare equal (and be merged), but a bad
 		// restriction on the second one is an error all the same.
-		if unionLast {
+		if devLast {
+			plain := "type " + unionParent + ";"
+			if unionExtra != "" {
+				plain = "type " + unionParent + " {" + unionExtra + " }"
+			}
+			fmt.Fprintf(&b, "  leaf l { %s }\n}\n", plain)
+			dp := unionParent
+			if dp != base {
+				dp = "m:" + dp // a typedef of module m
+			}
+			devText = fmt.Sprintf("module d { namespace \"urn:d\"; prefix d; import m { prefix m; }\n  deviation /m:l { deviate replace { type %s {%s %s %q; } } }\n}\n", dp, unionExtra, kw, restr[len(restr)-1])
+		} else if unionLast {
 			first := "type " + unionParent + ";"
 			if unionExtra != "" {
 				first = "type " + unionParent + " {" + unionExtra + " }" // a decimal64 member needs its fraction-digits too
@@ -393,6 +411,14 @@ func Chains(j *job.Job, s *job.Sink) {
 		} else if err := ms.Parse(text, "m.yang"); err != nil {
 			viol("parse", err.Error())
 			continue
+		}
+		if devLast {
+			text += "\n" + devText
+			if err := ms.Parse(devText, "d.yang"); err != nil {
+				viol("parse", err.Error())
+				continue
+			}
+			s.Count("chains_with_the_last_restriction_in_a_deviation", 1)
 		}
 		errs := ms.Process()
 		switch {
